@@ -256,8 +256,12 @@ func (b *Browser) Do(r Req) *Exchange {
 		cookieHdr += r.CookieHdr
 	}
 	if cookieHdr != "" {
-		fmt.Fprintf(&buf, "Cookie: %s\r\n", cookieHdr)
-		ex.ReqHdr.Set("Cookie", cookieHdr)
+		// "||" in a raw cookie header asks for separate Cookie header lines (HTTP/2 front ends and
+		// some clients split them; net/http reads all lines)
+		for _, line := range strings.Split(cookieHdr, "||") {
+			fmt.Fprintf(&buf, "Cookie: %s\r\n", line)
+			ex.ReqHdr.Add("Cookie", line)
+		}
 	}
 	buf.WriteString("Connection: close\r\n")
 	if r.Chunked {
